@@ -272,6 +272,7 @@ func runC08(c *Ctx) {
 	c08SlowPathTypes(c)
 	c08Headroom(c)
 	c08RawInvariant(c)
+	c08AuthOptionInvariant(c)
 	// V1
 	if fn := c.Fn(procT + ".process"); fn != nil {
 		e := NewE1(c, fn)
